@@ -19,6 +19,17 @@ pub fn ledger_final() -> String {
     LEDGER.with(|l| { let l = l.borrow(); let mut c = l.0.clone(); c.sort(); let mut d = l.1.clone(); d.sort(); if c == d { "exactly-once".to_string() } else { format!("created {:?} dropped {:?}", c, d) } })
 }
 pub fn show(t: &Tr) -> (u32, u64) { (t.id, t.payload) }
+/// an element whose destructor records itself and then panics (only the first time, to keep unwinding sane)
+#[derive(Debug)]
+pub struct TrP { pub id: u32 }
+pub fn trp(id: u32) -> TrP { LEDGER.with(|l| l.borrow_mut().0.push(id)); TrP { id } }
+impl Drop for TrP { fn drop(&mut self) { let id = self.id; let first = LEDGER.with(|l| { let mut l = l.borrow_mut(); let first = !l.1.contains(&id); l.1.push(id); first }); if first && !std::thread::panicking() { panic!("destructor of element {id} panics"); } } }
+/// panic-path verdict: nothing dropped twice (leaks are allowed on a path that does not run to completion)
+pub fn ledger_at_most_once() -> String {
+    LEDGER.with(|l| { let l = l.borrow(); let mut d = l.1.clone(); d.sort(); let n = d.len(); d.dedup(); if d.len() == n { "at-most-once".to_string() } else { format!("dropped twice: {:?}", l.1) } })
+}
+pub struct SP { pub a: Tr, pub b: TrP, pub c: Tr }
+pub struct TP(pub Tr, pub TrP, pub Tr);
 
 pub struct S2 { pub a: Tr, pub b: Tr }
 pub struct S3 { pub x: Tr, pub y: (Tr, Tr), pub z: () }
@@ -134,6 +145,26 @@ def programs(tier):
             prog(f"array len {n} with parenthesised (e1)", make, f"konst::destructure!{{[{', '.join(nm3)}] = v}}", [(f"e{i + 1}", i + 1) for i in range(n)], [])
             prog(f"array len {n}: [_, ..]", make, "konst::destructure!{[_, ..] = v}", [], list(range(1, n + 1)))
             prog(f"array len {n}: [.., last]", make, "konst::destructure!{[.., last] = v}", [("last", n)], list(range(1, n)))
+    # an ignored (`_` / `..`) element whose destructor panics in the middle of the macro: nothing may be dropped twice
+    def panic_prog(name, make, macro, binds):
+        body = [
+            "ledger_reset();",
+            "let k = cu(|| {",
+            "    let r = std::panic::catch_unwind(std::panic::AssertUnwindSafe(|| {",
+            f"        let v = {make};",
+            f"        {macro}",
+            f"        {' '.join(f'drop({b});' for b in binds)}",
+            "    }));",
+            "    format!(\"panicked={} {}\", r.is_err(), ledger_at_most_once())",
+            "});",
+            f"out.push(({js(name)}.to_string(), k, \"panicked=true at-most-once\".to_string()));",
+        ]
+        P.append((name, body))
+    panic_prog("SP {a, b: _, c} with a panicking destructor of the ignored field", "SP { a: tr(1), b: trp(2), c: tr(3) }", "konst::destructure!{SP {a, b: _, c} = v}", ["a", "c"])
+    panic_prog("TP(a, _, c) with a panicking destructor of the ignored field", "TP(tr(1), trp(2), tr(3))", "konst::destructure!{TP(a, _, c) = v}", ["a", "c"])
+    panic_prog("tuple (a, _, c) with a panicking destructor of the ignored element", "(tr(1), trp(2), tr(3))", "konst::destructure!{(a, _, c) = v}", ["a", "c"])
+    panic_prog("array [a, _, c] with a panicking destructor of the ignored element", "[trp(1), trp(2), trp(3)]", "konst::destructure!{[a, _, c] = v} std::mem::forget(a); std::mem::forget(c);", [])
+    panic_prog("array [a, .., c] with a panicking destructor in the ignored rest", "[trp(1), trp(2), trp(3), trp(4)]", "konst::destructure!{[a, .., c] = v} std::mem::forget(a); std::mem::forget(c);", [])
     return [p for p in P if p is not None]
 
 
